@@ -148,6 +148,38 @@ Theorem C20_release_only_after_close_any_tail_refuted :
 Proof. exact C20_release_only_after_close_any_tail_refuted_proof. Qed.
 Print Assumptions C20_release_only_after_close_any_tail_refuted.
 
+(* The readiness wait of the hand-off stage is bounded: with the deadline an absolute instant fixed
+   before the loop, whatever signals arrive and however many, the wait is over by origin + timeout, and
+   if neither readiness nor a termination signal arrives its outcome is the timeout (the path that
+   answers ReloadError, rolls back and releases). *)
+Theorem C20_ready_wait_bounded :
+  forall (timeout origin : N) (evs : list (N * wev)),
+    (snd (ready_wait RFixed timeout (origin + timeout) evs) <= origin + timeout)%N /\
+    (only_ignored evs = true -> ready_wait RFixed timeout (origin + timeout) evs = (WRTimeout, (origin + timeout)%N)).
+Proof. exact C20_ready_wait_bounded_proof. Qed.
+Print Assumptions C20_ready_wait_bounded.
+
+(* ... and that is how the source arms its timer now (flag regenerated from cmd/run.go: timer created
+   before the `for` vs time.After/NewTimer evaluated inside it). *)
+Theorem C20_ready_wait_bounded_code :
+  ready_deadline_ok gen_ready_deadline = true /\
+  forall (timeout origin : N) (evs : list (N * wev)),
+    (snd (ready_wait gen_ready_deadline timeout (origin + timeout) evs) <= origin + timeout)%N.
+Proof. exact C20_ready_wait_bounded_code_proof. Qed.
+Print Assumptions C20_ready_wait_bounded_code.
+
+(* With the timeout re-armed by every ignored signal the bound is false: signals every timeout/2 keep
+   the wait going as long as they keep coming. *)
+Definition C20_ready_wait_bounded_any_mode_full : Prop :=
+  forall (mode : ready_deadline) (timeout origin : N) (evs : list (N * wev)),
+    (snd (ready_wait mode timeout (origin + timeout) evs) <= origin + timeout)%N.
+Theorem C20_ready_wait_bounded_any_mode_refuted :
+  forall n : nat, exists evs : list (N * wev),
+    only_ignored evs = true /\
+    (snd (ready_wait RRearmed 10 (0 + 10) evs) >= N.of_nat n * 5 + 10)%N.
+Proof. exact C20_ready_wait_bounded_any_mode_refuted_proof. Qed.
+Print Assumptions C20_ready_wait_bounded_any_mode_refuted.
+
 (* The `default:` branch of the non-blocking send in tryQueueReloadRequest is dead: a thread that won
    the CAS always finds room in the channel. *)
 Theorem C20_send_never_fails :
